@@ -47,6 +47,10 @@ ORACLE_F = {
 
 # ------------------------------------------------------------------ export helpers
 def T(s):
+    """A text as a Gallina term of type Model.text: a string literal when every character is a single byte that
+    Coq's lexer passes through unchanged, else the list of codes."""
+    if s and all((32 <= ord(c) < 127) or c in '\n\r\t' for c in s):
+        return '(tx "' + s.replace('"', '""') + '"%string)'
     return ct.lst([str(ord(c)) for c in s])
 
 
@@ -64,8 +68,10 @@ def cellterm(v):
             return 'CNaN'
         if math.isinf(v):
             return f'(CStr {T(repr(v))})'
-        fr = Fraction(v)
-        return f'(CNum ({fr.numerator}#{fr.denominator}))'
+        n, d = v.as_integer_ratio()
+        if d == 1:
+            return f'(CNum ({n}#1))'
+        return f'(fl ({n}) (-{d.bit_length() - 1}))'
     if isinstance(v, str):
         return f'(CStr {T(v)})'
     try:
@@ -277,7 +283,7 @@ def classify_f(ctx, spec, tags):
     return status
 
 
-PRELUDE = 'Open Scope N_scope.'
+PRELUDE = 'Require Import Coq.Strings.String.\nOpen Scope N_scope.'
 IMPORTS = 'C20.Model C20.Check'
 
 
@@ -287,7 +293,7 @@ def run_fspecs(ctx, specs, label, quiet=False, **kw):
         term, info = fcase_term(ctx, spec, f'{label}{k}', **kw)
         terms.append(term)
         infos.append(info)
-    verdicts = ctx.run_cases(label, IMPORTS, 'fcase', terms, 'fverdict', shard=40, prelude=PRELUDE)
+    verdicts = ctx.run_cases(label, IMPORTS, 'fcase', terms, 'fverdict', shard=10, prelude=PRELUDE)
     stats = {'ok': 0, 'known': 0, 'violation': 0, 'broken': 0}
     if not quiet:
         for spec, tags in zip(specs, verdicts):
@@ -326,16 +332,20 @@ def run(ctx):
     ctx.coverage['source_sha'] = source_sha('src/pharmpy/model/external/nonmem/table.py',
                                             'src/pharmpy/tools/external/nonmem/results.py',
                                             'src/pharmpy/internals/math.py', 'src/pharmpy/modeling/math.py')
+    ctx.log('build gate done')
     R.generated_tables(ctx)
     finding_probes(ctx)
+    ctx.log('finding probes done')
     reg = sorted((VERIF / 'regress' / 'C20').glob('*.json'))
     regs = [json.loads(p.read_text()) for p in reg]
-    nf = 260 if ctx.tier == 'quick' else 4000
-    nr = 90 if ctx.tier == 'quick' else 1500
+    nf = 190 if ctx.tier == 'quick' else 3000
+    nr = 64 if ctx.tier == 'quick' else 1000
     fspecs = [s for s in regs if s.get('level') != 'run'] + [G.gen_fspec(ctx.rng) for _ in range(nf)]
     rspecs = [s for s in regs if s.get('level') == 'run'] + [G.gen_rspec(ctx.rng) for _ in range(nr)]
     verdicts, infos, stats = run_fspecs(ctx, fspecs, 'files')
+    ctx.log('file level done')
     rverdicts, rinfos, rstats = R.run_rspecs(ctx, rspecs, 'runs')
+    ctx.log('run level done')
     R.float_engine_checks(ctx)
     ctx.coverage['evaluations'] = len(fspecs) + len(rspecs)
     distinct = {file_text(s) for s in fspecs if len(file_text(s)) > 200} | {json.dumps(s, sort_keys=True) for s in rspecs}
@@ -358,6 +368,8 @@ def run(ctx):
         'guard_final_obj_differs': sum(1 for v in verdicts if 201 in v),
         'guard_no_iter0': sum(1 for v in verdicts if 202 in v),
         'guard_noheader': sum(1 for v in verdicts if 203 in v),
+        'written_files': sum(1 for s in fspecs if s.get('raw') is None),
+        'in_domain_of_parse_render_theorem': sum(1 for v in verdicts if 210 in v),
         'run_dirs': R.distribution(rspecs, rverdicts, rinfos),
     }
     ctx.coverage['samples'] = ([{'spec': _short(s), 'tags': v} for s, v in list(zip(fspecs, verdicts))[-3:]]
